@@ -23,6 +23,21 @@ handle ever taken is probed after every operation.
     object; every value still held equals what a fresh model computes that
     replayed the edits only (differential).
 
+NESTED class ((P) only, NOT tied to the model; generator harness/alivenest.py, driver drivers/alivenest.py; 140 cases
+quick / 1500 thorough from a generator seeded after the model-tied cases were drawn, so those are unchanged):
+parametric spaces nested in parametric spaces (P[i].C[j], P[i].T.C[j], P[i].C[j].D[k]) whose parameter formulas
+call cells (Src.a(), Src.b() -> a()) and read references (attribute path S.k -> reference graph, name g), so that
+the ItemSpaces are nodes with precedents and one edit of a precedent discards ItemSpaces of several depths in one
+clear batch (processed in a set iteration order: every case builds 3-6 root ItemSpaces with 2-4 nested ones each,
+so detection does not depend on one draw of object ids).  Alive/Model.v cannot express this (its ItemSpaces have
+no precedents and live in static spaces only).  Oracle: the generator's mirror lists after every edit the handles
+that MUST be dead (inside / copied from what was deleted; ItemSpaces - and everything in them - whose parameter
+formula read what was deleted, redefined, assigned, cleared); p_check on all handles; deep_audit (also run on the
+model-tied cases now): everything reachable through cells / named_spaces / param_spaces is valid, every live handle
+is reachable, no entry of _dynamic_subs, no node of model.tracegraph or of the reference graph belongs to something
+unreachable or deleted; rebuild audit: every live handle exists in a fresh model that replayed the edits only and
+shows the same values / references / members there.  corpus/C13/nested_*.json: directed cases of this class.
+
 Known defects of the pinned tree (KNOWN_FINDINGS.txt; witnesses corpus/C13/finding_*.json, all replayed
 through (P) on every run).  Repaired in /repo and no longer avoided: D14 and C13b (9ebab50), C13c (76f1b96);
 their witnesses must pass now - a failure is a (P) failure.  Repair a66156d (every re-inheritance pass
@@ -39,8 +54,9 @@ live model and does not draw the operation (counted in distribution):
 corpus/C13/input_*.json: input values (outside the model's vocabulary) of deleted cells, (P) only.
 corpus/C13/reinherit_*.json: re-inheritance over spaces without cells / with unchanged members, (T) and (P).
 Operations refused for lack of a C3 order are dropped (counted: no_mro)."""
-import os, json, glob
+import os, json, glob, random, collections
 import fw
+import alivenest
 from fw import cnat, cz, cbool, cstr, clist, ctuple, copt, Outcome
 
 EXTRA_MODS = ["Alive.Check"]
@@ -51,7 +67,12 @@ TRUSTED = ["C3 linearisation is not modelled in this layer: the existence of a d
 ASSUMPTIONS = ["vocabulary: spaces, cells (cached, one parameter, formulas: constant / sibling call / call through a model-level "
                "reference), ItemSpaces of static spaces, model-level references to spaces; no renaming, no input values, "
                "no uncached cells, no space-level references",
-               "known-defect triggers C13a C13e D3 avoided by the generator (see module docstring)"]
+               "known-defect triggers C13a C13e D3 avoided by the generator (see module docstring)",
+               "nested class (ItemSpaces inside ItemSpaces, parameter formulas with precedents, value assignment, formula "
+               "change, clear_all, space-level and attribute-path references): judged by the (P) oracle only (must-die list of "
+               "the generator's mirror = a lower bound, reachability audit of the implementation's containers and graphs, "
+               "rebuild differential); no Coq model covers it; re-use of the interface object when the same ItemSpace is "
+               "built again (dynamic_cache) is taken as intended; D22 (del Src after S.k was read) and C07-D38 not generated"]
 CORPUS = os.path.join(fw.VERIF, "corpus", "C13")
 
 PROFILES = {
@@ -181,6 +202,22 @@ def script_for(case, r):
             "print(json.dumps(r['pfail'], indent=1))\n" % json.dumps(c))
 
 
+def script_for_nested(case):
+    c = {"nested": True, "ops": case["ops"]}
+    return ("# stand-alone reproducer: PYTHONPATH=<modelx repo> python this.py   (needs /verif/harness/drivers/alivenest.py + alive.py)\n"
+            "import json, subprocess, sys\ncase = json.loads(%r)\n"
+            "p = subprocess.run([sys.executable, '/verif/harness/drivers/alivenest.py'], input=json.dumps([case]), text=True, capture_output=True)\n"
+            "r = json.loads([l for l in p.stdout.splitlines() if l.startswith('@@RESULT ')][0][9:])[0]\n"
+            "print(json.dumps(r['pfail'], indent=1))\n" % json.dumps(c))
+
+
+def nested_detail(r):
+    def show(op):
+        return {k: v for k, v in op.items() if k != "dead"}
+    return "; ".join("%s at step %d (%s): %s" % (f["kind"], f["step"], show(r["ops"][f["step"]]) if f["step"] < len(r["ops"]) else "?",
+                                                 f["detail"]) for f in r["pfail"][:4])
+
+
 def load_corpus():
     ws, cs = [], []
     for p in sorted(glob.glob(os.path.join(CORPUS, "*.json"))):
@@ -206,9 +243,24 @@ def run(tier, seed, rng):
                 "call through a model-level reference), handles taken to cells, derived copies, child spaces, ItemSpaces and their "
                 "members, evaluation, deletion of cells / space trees / model-level references, add_bases / remove_bases, "
                 "clear_items / del S[k] / parameter change, ~8% operations through dead handles. non-trivial = an accepted deleting "
-                "operation after which at least two held handles are dead; distinct by the operation list")
+                "operation after which at least two held handles are dead; distinct by the operation list.  NESTED class ((P) only): "
+                "worlds Src{a,b,k} / g / P[i].[T.]C[j][.D[k]] with parameter formulas reading S.a() S.b() S.k g, 3-6 root x 2-4 nested "
+                "ItemSpaces, 2-4 rounds of one edit (del / redefine / assign / clear a precedent cells, change / del a reference, "
+                "del / clear ItemSpaces at either depth, del of C T P Src or a level's cells, new member in a copied space, new "
+                "parameter formula of P) + rebuild of some ItemSpaces; non-trivial = an edit killed a held nested ItemSpace")
     witnesses, corpus = load_corpus()
+    ncorpus = [(name, d) for name, d in corpus if d["case"].get("nested")]
+    corpus = [(name, d) for name, d in corpus if not d["case"].get("nested")]
     cases = [dict(d["case"], profile="corpus:" + name) for name, d in corpus] + gen_cases(rng, tier)
+    # nested class ((P) only): its own generator, seeded after the model-tied cases were drawn
+    rng_n = random.Random(rng.getrandbits(64))
+    ncases = [dict(d["case"], profile="corpus:" + name) for name, d in ncorpus] + \
+             [alivenest.gen_case(rng_n) for _ in range(140 if tier == "quick" else 1500)]
+    nres = fw.run_driver("alivenest", ncases, chunk=10 if tier == "quick" else 30)
+    for c, r in zip(ncases, nres):
+        if r["pfail"]:
+            out.p_failures.append({"case": {"nested": True, "ops": c["ops"]}, "detail": nested_detail(r),
+                                   "kinds": sorted({f["kind"] for f in r["pfail"]}), "script": script_for_nested(c)})
     allc = cases + [d["case"] for _, d in witnesses]
     res = fw.run_driver("alive", allc)
     wres = res[len(cases):]
@@ -235,9 +287,10 @@ def run(tier, seed, rng):
             tm["impl_steps"] = [{"op": op, "out": s["out"], "exc": s["exc"], "alive": s["alive"]}
                                 for op, s in zip(res[i]["ops"], res[i]["steps"])]
         out.tie_mismatches.append(tm)
-    out.evaluations = len(cases)
+    out.evaluations = len(cases) + len(ncases)
     out.traces_validated = len(idx) - len(bad)
-    out.distinct_nontrivial = len({json.dumps(r["ops"]) for r in res if focus(r)})
+    out.distinct_nontrivial = len({json.dumps(r["ops"]) for r in res if focus(r)}) + \
+        len({json.dumps(r["ops"]) for r in nres if r["stats"]["nested_deaths"]})
     out.samples = [{"ftab": c["ftab"], "ops": r["ops"]} for c, r in list(zip(cases, res))[:2]]
 
     # ---- witnesses of recorded defects: replayed through the (P) oracle
@@ -268,11 +321,45 @@ def run(tier, seed, rng):
                         "dead_handles_at_end": sum(sum(1 for b in r["steps"][-1]["alive"] if not b) for r in res if r["steps"]),
                         "values_compared_with_edit_only_replay": compared}
     out.notes.append("known-defect triggers avoided by the generator (operation not drawn): %s" % json.dumps(filt, sort_keys=True))
+    # nested class
+    nfeat, nedits, navoid, nitems, nouts = (collections.Counter() for _ in range(5))
+    tot = collections.Counter()
+    for c, r in zip(ncases, nres):
+        nfeat.update({k.split(":")[0] + ":" + k.split(":")[1] if k.startswith(("structure", "src")) else k: v
+                      for k, v in c.get("features", {}).items() if not k.startswith("pf:")})
+        nedits.update(c.get("edits", []))
+        navoid.update(c.get("avoided", {}))
+        nitems.update({"depth_%s" % k: v for k, v in r["stats"]["items_built"].items()})
+        nouts.update(s["out"][0] for s in r["steps"])
+        tot["one_batch_edits"] += c.get("one_batch_edits", 0)
+        for k in ("nested_deaths", "edits_killing_nested", "must_die_checked", "compared", "audits", "full_checks"):
+            tot[k] += r["stats"][k]
+        tot["handles"] += len(r["labels"])
+        tot["cases_with_a_nested_ItemSpace_discarded"] += 1 if r["stats"]["nested_deaths"] else 0
+    out.distribution["nested_class_P_only"] = {
+        "cases": len(ncases), "corpus_cases": len(ncorpus), "worlds_with": dict(nfeat), "edits": dict(nedits),
+        "ItemSpaces_built_by_nesting_depth": dict(nitems),
+        "nested_ItemSpaces_built(depth>=2)": sum(v for k, v in nitems.items() if k != "depth_1"),
+        "nested_ItemSpace_handles_killed_by_an_edit": tot["nested_deaths"],
+        "edits_that_killed_a_nested_ItemSpace": tot["edits_killing_nested"],
+        "edits_clearing_an_ItemSpace_and_one_nested_in_it_in_one_batch(mirror)": tot["one_batch_edits"],
+        "cases_with_a_nested_ItemSpace_discarded": tot["cases_with_a_nested_ItemSpace_discarded"],
+        "must_die_handles_checked": tot["must_die_checked"], "full_oracle_sweeps": tot["full_checks"],
+        "rebuild_audits": tot["audits"], "members_compared_with_the_fresh_model": tot["compared"],
+        "handles_kept": tot["handles"], "answers": dict(nouts), "not_generated": dict(navoid)}
+    out.notes.append("nested class (ItemSpaces inside ItemSpaces with precedents): %d cases, (P) only - outside Alive/Model.v; "
+                     "not generated: %s" % (len(ncases), json.dumps(dict(navoid), sort_keys=True)))
+    if ncases:
+        out.samples.append({"nested": True, "ops": [{k: v for k, v in op.items() if k != "dead"} for op in ncases[-1]["ops"][:14]] + ["..."]})
     return out
 
 
 def replay(data):
     case = data["case"]
+    if case.get("nested"):
+        r = fw.run_driver("alivenest", [case])[0]
+        print(json.dumps({"pfail": r["pfail"]}, indent=1))
+        return 1 if r["pfail"] else 0
     r = fw.run_driver("alive", [case])[0]
     print(json.dumps({"ops": r["ops"], "pfail": r["pfail"]}, indent=1))
     return 1 if r["pfail"] else 0
